@@ -662,6 +662,25 @@ class Interp:
     def fn_not(self, a):
         return T if a is NIL else NIL
 
+    def fn_char_equal(self, a, b):
+        """Emacs: ignores case when `case-fold-search` is non-nil in the current buffer — the default (and never changed by chokan.el)."""
+        if not isinstance(a, int) or not isinstance(b, int):
+            raise LispError("char-equal of non-characters")
+        e_ = self.globals.find("case-fold-search")
+        fold = e_.v["case-fold-search"] if e_ is not None else T
+        if fold is NIL:
+            return T if a == b else NIL
+        return T if chr(a).lower() == chr(b).lower() else NIL
+
+    def fn_downcase(self, a):
+        return ord(chr(a).lower()) if isinstance(a, int) else a.lower()
+
+    def fn_upcase(self, a):
+        return ord(chr(a).upper()) if isinstance(a, int) else a.upper()
+
+    def fn_eql(self, a, b):
+        return T if (a.__class__ is b.__class__ and a == b) or a is b else NIL
+
     fn_null = fn_not
 
     def fn_equal(self, a, b):
